@@ -86,7 +86,14 @@ class JaqalLexer(Lexer):
         return token
 
     def INT(self, token):
-        token.value = int(token.value)
+        try:
+            token.value = int(token.value)
+        except ValueError:
+            # Python refuses to convert digit strings beyond a length limit
+            col = token.index - self.text.rfind("\n", 0, token.index)
+            raise JaqalParseError(
+                "<string>", self.lineno, col, "Integer literal too large"
+            )
         return token
 
     def NUMBER(self, token):
